@@ -9,3 +9,5 @@ func newScheduler(x *Exec) *scheduler { return &scheduler{x: x} }
 
 func (s *scheduler) spawn(fr *frame, i *ssa.Go) { s.x.unsupported("go statement (scheduler not built yet)") }
 func (s *scheduler) finish()                  {}
+
+func (s *scheduler) current() int { return 0 }
